@@ -7,7 +7,6 @@ import (
 
 	"github.com/ipld/go-ipld-prime"
 	"github.com/ipld/go-ipld-prime/datamodel"
-	"github.com/ipld/go-ipld-prime/must"
 )
 
 // Match determines if the IPLD node satisfies the policy.
@@ -303,8 +302,14 @@ func (a *accumulator) disjunction(cur Statement) (matchResult, Statement) {
 //   - For "<=" it returns true when order is -1 or 0
 func isOrdered(expected ipld.Node, actual ipld.Node, satisfies func(order int) bool) bool {
 	if expected.Kind() == ipld.Kind_Int && actual.Kind() == ipld.Kind_Int {
-		a := must.Int(actual)
-		b := must.Int(expected)
+		a, err := actual.AsInt()
+		if err != nil {
+			return false // e.g. an unsigned integer beyond the int64 range: outside the safe integer bounds
+		}
+		b, err := expected.AsInt()
+		if err != nil {
+			return false
+		}
 
 		return satisfies(cmp.Compare(a, b))
 	}
